@@ -160,6 +160,13 @@ def direct_exceptions(ck, tf, pid="C11"):
                             try:
                                 db.insert_multiple([tf.Point(time=T0 + timedelta(seconds=i), measurement="m", tags={"k": str(i), "pad": "x" * 20}, fields={"a": float(i)})
                                                     for i in range(size)])
+                                if not csv and size == 5:
+                                    # a tag / field set may be any Mapping: one stored point carries sets that are no dicts (read-only views)
+                                    import types
+                                    db.remove(tf.TagQuery().k == "1")
+                                    db.insert(tf.Point(time=T0 + timedelta(seconds=1), measurement="m", tags=types.MappingProxyType({"k": "1", "pad": "x" * 20}),
+                                                       fields=types.MappingProxyType({"a": 1.0})))
+                                    db.reindex()
                                 before = snapshot(db)
                                 at = size // 2 if where == "middle" else size
                                 c = [0]
